@@ -196,7 +196,9 @@ pub fn menu(st: &GenState, prog: &Program, cfg: &GenCfg) -> Vec<Step> {
 
     // ---- join
     if st.joins < cfg.max_joins && f.cols.len() <= 4 {
-        let left_a = (0..f.cols.len()).rev().find(|&i| f.cols[i].name.as_deref() == Some("a") && f.refname(i).is_some());
+        // `(==a)` is only offered where `this.a` is unambiguous: exactly one left column called `a`
+        let n_a = f.cols.iter().filter(|c| c.name.as_deref() == Some("a")).count();
+        let left_a = (0..f.cols.len()).rev().find(|&i| n_a == 1 && f.cols[i].name.as_deref() == Some("a") && f.refname(i).is_some());
         let rights: Vec<(Source, Option<String>)> = {
             let mut v = vec![(Source::Table("u".into()), None), (Source::Sub(Box::new(closed_u())), Some("r".to_string()))];
             if !prog.lets.is_empty() && (core || naming) {
